@@ -318,7 +318,7 @@ PROPS["C09"] = dict(
 	level_note="Numbers are outside the claim: Number::canonical_with is lexical's float parser followed by ryu-js (floating point, 128-bit multiplications) and is beyond CBMC at any useful digit count; the known 1-ulp deviations for > 19 digits stay invisible to this check. That canonicalize_with really sorts with this comparator is trusted to std's sort_by (C10 reduction); the recursion over children is read-only.",
 	functions=["object::canonical_cmp", "print::string_literal", "print::printed_string_size"],
 	bounds="keys <= 2 characters; strings <= 2 characters",
-	outside=["number canonicalization (floating point)", "Object::canonicalize_with / Object::sort wrappers on heap objects (std sort_by trusted)", "keys longer than 2 characters"],
+	outside=["number canonicalization (floating point)", "std's sort_by (trusted)", "keys longer than 2 characters (comparator) / 1 character (wrapper)", "the recursion of Value::canonicalize_with into nested arrays/objects"],
 	stubs=[STUB_GROW], assumptions=["keys are compared through the real canonical_cmp on stack-allocated entries"],
 	harnesses=C09H + [dict(h, tier="quick") for h in C08S],
 )
@@ -329,9 +329,9 @@ PROPS["C10"] = dict(
 	level_note="std's slice::sort_by is trusted to return a permutation sorted under the comparator it is given; numbers (double value, respelling) are outside the claim (floating point); respellings of whole documents go through whole-document parsing (outside); the escape-insensitivity of strings is C02's decoding result.",
 	functions=["object::canonical_cmp", "IndexMap::{clear,insert}", "Value::canonicalize_with (scalars)"],
 	bounds="keys <= 2 characters; index rebuild over <= 3 entries",
-	outside=["numbers", "Object::canonicalize_with on heap objects (sort_by trusted)", "documents as wholes"],
+	outside=["numbers", "std's sort_by (trusted)", "documents as wholes", "objects of more than 4 (quick) / 5 (thorough) entries in the wrapper check"],
 	stubs=[STUB_GROW], assumptions=[],
-	harnesses=C10H + pick(I2, ["i2_clear_rebuild_aba", "i2_clear_rebuild_abc", "i2_clear_rebuild_aaa", "i2_insert_aba"]) + pick(C09H, ["c09_member_order_is_utf16_1char"]),
+	harnesses=C10H + pick(C09H, ["c09_member_order_is_utf16_1char"]),
 )
 
 C14O = [H(_OV + "c14_index_independence_" + p_, "in", "quick", 2400, (_OBJ % p_) + " vs. the same entries with an EMPTY index, and vs. the same keys with other symbolic values", "unwind 10", gb=6.0) for p_ in ("empty", "a", "aa", "ab")] + \
@@ -439,16 +439,44 @@ for _p in ("C01", "C02", "C05", "C07"):
 # the Object methods (src/object/mod.rs) by symbolic execution of their MIR with symbolic keys (drv/objcheck.py)
 def OBJ(tier, depth, cap):
 	h = H("obj::histories_depth%d" % depth, "mir", tier, cap,
-	      "every history of <= %d operations from the empty object over push / push_front / remove_at(i) / insert / insert_front / remove(key) / remove_unique / sort, removal iterators pulled 0, 1 or 3 times before being dropped; "
-	      "KEYS SYMBOLIC (z3 integers over an unbounded universe: equalities and, for sort, order decided lazily by the solver)" % depth,
+	      "every history of <= %d operations from the empty object over push / push_front / remove_at(i) / insert / insert_front / remove(key) / remove_unique / sort / canonicalize, removal iterators pulled 0 or 2 times before being dropped; "
+	      "KEYS SYMBOLIC (each key one character, a z3 integer over all Unicode scalar values >= 'A': equality, str order and UTF-16 order decided lazily by the solver)" % depth,
 	      "histories of <= %d operations (objects of <= %d entries)" % (depth, depth), gb=2.0)
 	h["tool"] = "objcheck"
 	h["depth"] = depth
 	return h
 
 
-PROPS["C06"]["harnesses"] = PROPS["C06"]["harnesses"] + [OBJ("quick", 3, 900), OBJ("thorough", 5, 7200)]
+PROPS["C06"]["harnesses"] = PROPS["C06"]["harnesses"] + [OBJ("quick", 4, 1500), OBJ("thorough", 5, 7200)]
+for _p in ("C09", "C10"):
+	PROPS[_p]["harnesses"] = PROPS[_p]["harnesses"] + [OBJ("quick", 4, 1500), OBJ("thorough", 5, 7200)]
+	PROPS[_p]["functions"] = PROPS[_p]["functions"] + ["Object::canonicalize_with (from MIR; one-character keys over all of Unicode, symbolic: str order and UTF-16 order may disagree)"]
+	PROPS[_p]["assumptions"] = PROPS[_p]["assumptions"] + ["Object::canonicalize_with is interpreted from its MIR over the Vec/IndexMap models; sort_by with canonical_cmp is represented by the UTF-16 code-unit order relation (that canonical_cmp implements that order is decided by the Kani harnesses c09_member_order_*); values are opaque tags (numbers are outside)"]
 PROPS["C06"]["functions"] += ["Object::{push,push_entry,push_front,push_entry_front,remove_at,insert,insert_front,remove,remove_unique,sort,index_of,redundant_index_of} and the three removal iterators' next/Drop (from MIR)"]
 PROPS["C06"]["assumptions"] = PROPS["C06"]["assumptions"] + [
 	"Object-level check: Vec<Entry> and IndexMap are contract models (the IndexMap model is the bucket semantics of src/object/index_map.rs that the Kani harnesses I1/I2 establish for the real code, defined for every state including stale ones); "
 	"std's sort_by and the derived ordering of Entry are trusted (entries are sorted by (key, value) in the model); a sample of the explored histories and every counter-example are replayed on the REAL Object (native helper)"]
+
+# ---------------------------------------------------------------------------
+# C06: the Kani instances that do not finish (measured: out of memory at 12 GB or > 15-40 min each — IndexMap::insert onto an
+# existing key, clear+rebuild, Object operations on non-empty heap objects, Object::sort) are NOT registered; their source stays
+# in incrate/ for the record. Those operations are decided at Object level by the MIR-based object check instead.
+def _finishes(n):
+	s = n.split("::")[-1]
+	if s.startswith("i2_insert_") and not s.endswith("_a"):
+		return False
+	if s.startswith("i2_clear_rebuild") or s.startswith("i3_sort"):
+		return False
+	if s.startswith("i3_") and not s.endswith("_empty"):
+		return False
+	return True
+
+
+for _p in PROPS:
+	PROPS[_p]["harnesses"] = [h for h in PROPS[_p]["harnesses"] if _finishes(h["name"])]
+PROPS["C06"]["outside"] = ["the REAL IndexMap::insert onto an existing key / clear+rebuild at IndexMap level under Kani (CBMC does not finish; Indexes::insert itself is I1, and the Object-level behaviour is decided by the object check over the bucket-semantics model)",
+                           "growth/rehash behaviour of the real hashbrown table (trusted)", "histories longer than 4 (quick) / 5 (thorough) operations", "get_or_insert_with, extend, from_vec, iter_mut-based mutation, clone (clone: C14)"]
+PROPS["C06"]["bounds"] = "Indexes: <= 4 positions, all < 8; IndexMap (Kani): <= 3 entries, keys in {a,b,c,''}; Object (Kani): operations on the empty object; Object (MIR + z3): every history of <= 4 / 5 operations with symbolic keys"
+PROPS["C06"]["level_text"] = ("Two engines. Kani/CBMC, one-step inductive: every index primitive (Indexes::insert/remove/shift_up/shift_down; IndexMap::remove/shift and fresh-key insert) is run from an ARBITRARY state satisfying the representation invariant and must re-establish it. "
+                              "MIR symbolic execution + z3: the Object methods and the removal iterators (next, Drop) are interpreted from their MIR over Vec/IndexMap models for EVERY history of <= 4 (quick) / 5 (thorough) operations from the empty object with SYMBOLIC keys; "
+                              "after every operation the entries equal the list model's, the index is canonical for them and the result is the model's; counter-examples and a sample of passing histories are replayed on the real Object.")
